@@ -213,8 +213,18 @@ def run(ctx):
             return src_[4][0] == ("const", "int", 0) and src_[4][1] == ("const", "int", 1)
         return False
 
+    def enumerated(l):
+        """True when the loop is `for (i, a) in <pair>.asset_infos.iter().enumerate()` (a 2-element array: both positions)."""
+        ads_, kind_, src_ = common.iter_chain(l["iter"])
+        return [a for a, _ in ads_] == ["enumerate"] and kind_ in ("iter", "into_iter") and "|".join(sorted(ctx.roots(src_))) == "%s.asset_infos" % item
+
+    def idx_root(l):
+        return l["item_root"] + ".0" if l.get("enumerated") else l["item_root"]
+
     def sym_index(v, l):
-        """v reads item.asset_infos[i] with i the element of loop l."""
+        """v reads item.asset_infos[i] with i the element of loop l (or is the enumerated element itself)."""
+        if l.get("enumerated"):
+            return set(ctx.roots(v)) == {l["item_root"] + ".1"}
         for x in common.walk(v):
             if x[0] == "proj" and x[2][0] == "ix":
                 if "|".join(sorted(ctx.roots(x[1]))) == "%s.asset_infos" % item and set(ctx.roots(x[2][1])) == {l["item_root"]}:
@@ -224,9 +234,14 @@ def run(ctx):
     for sb, sv in saves:
         where = common.span_of_block_term(h, sb)
         inner = [l for l in lps if l is not walk and l["next_bb"] in loop_blocks and body.edge_dominates(l["some_edge"], sb)]
-        sym = inner[0] if len(inner) == 1 and both_positions(inner[0]) else None
+        sym = None
+        if len(inner) == 1 and both_positions(inner[0]):
+            sym = inner[0]
+        elif len(inner) == 1 and enumerated(inner[0]):
+            sym = inner[0]
+            sym["enumerated"] = True
         if inner and sym is None:
-            r3.fail("C17.R3:inner-loop", h.path, where, "the registry update sits in an inner loop that is not exactly `0..2` over the two positions: unrecognised-idiom")
+            r3.fail("C17.R3:inner-loop", h.path, where, "the registry update sits in an inner loop that is neither `0..2` nor `asset_infos.iter().enumerate()` over the two positions: unrecognised-idiom")
             continue
         conds = [c for c in common.control_conditions(P, h, sb) if c["sw"] in loop_blocks and c["sw"] != walk["switch"] and (sym is None or c["sw"] != sym["switch"])]
         idx = None
@@ -274,6 +289,38 @@ def run(ctx):
                         idx = "i"
                         have_eq = True
                         continue
+            # pattern forms: `matches!(a, NativeToken { denom: d } if *d == denom)` / `if let NativeToken { denom: d } = a`
+            if sym is not None and sym.get("enumerated"):
+                elem = sym["item_root"] + ".1"
+                if cd[0] == "discr" and set(ctx.roots(cd[1])) == {elem} and c["allowed"] == ["NativeToken"]:
+                    if idx not in (None, "i"):
+                        extra.append("mixed indices")
+                    idx = "i"
+                    have_native = True
+                    continue
+                if cd[0] == "cmp" and cd[1] in ("eq", "ne") and len(cd[2]) == 2 and c["allowed"] == [cd[1] == "eq"]:
+                    rs_ = sorted("|".join(sorted(ctx.roots(x))) for x in cd[2])
+                    if rs_ == sorted([DENOM, elem + "~NativeToken.denom"]):
+                        idx = "i"
+                        have_eq = True
+                        continue
+            m_d = re.match(r"^%s\.asset_infos\[(\d)\]$" % re.escape(item), "|".join(sorted(ctx.roots(cd[1])))) if cd[0] == "discr" else None
+            if m_d and c["allowed"] == ["NativeToken"]:
+                if idx is not None and idx != int(m_d.group(1)):
+                    extra.append("mixed indices")
+                idx = int(m_d.group(1))
+                have_native = True
+                continue
+            if cd[0] == "cmp" and cd[1] in ("eq", "ne") and len(cd[2]) == 2 and c["allowed"] == [cd[1] == "eq"]:
+                rs_ = ["|".join(sorted(ctx.roots(x))) for x in cd[2]]
+                if DENOM in rs_:
+                    m_e = re.match(r"^%s\.asset_infos\[(\d)\]~NativeToken\.denom$" % re.escape(item), rs_[1 - rs_.index(DENOM)])
+                    if m_e:
+                        if idx is not None and idx != int(m_e.group(1)):
+                            extra.append("mixed indices")
+                        idx = int(m_e.group(1))
+                        have_eq = True
+                        continue
             extra.append("; ".join(sorted(lemmas.cond_strings(ctx, [c]))))
         if extra:
             r3.fail("C17.R3:extra-condition:%s" % ("|".join(extra))[:150], h.path, where,
@@ -293,7 +340,7 @@ def run(ctx):
         stored = "mload(%s)[%s]" % (PAIRS, key)
         if idx == "i":
             # `decimals[i] = new` on the stored array, i ranging over both positions
-            want_arr = "X:upd(%s.asset_decimals;[@%s];%s)" % (stored, sym["item_root"], DEC)
+            want_arr = "X:upd(%s.asset_decimals;[@%s];%s)" % (stored, idx_root(sym), DEC)
         else:
             want_arr = "A:array[%s]" % ";".join(DEC if k == idx else "%s.asset_decimals[%d]" % (stored, k) for k in (0, 1))
         got_arr = "|".join(sorted(ctx.roots(rec, (("f", "asset_decimals"),))))
